@@ -291,6 +291,7 @@ fn exec_lin(s2: &Arc<Sched>, spy: &Spy, mp: &Option<MultiProgress>, mine: &BTree
         "suspend" => { let t = m(); pb().suspend(|| closure(t)) }
         "mp_println" => { let _ = mp.as_ref().unwrap().println(m()); }
         "mp_suspend" => { let t = m(); mp.as_ref().unwrap().suspend(|| closure(t)) }
+        "disable" => pb().disable_steady_tick(),
         _ => {}
     }
 }
